@@ -95,6 +95,43 @@ def search(ck, tier, seed):
                     ok2, _ = close_enough(r[1][1][1:1 + arg.shape[0]], lf, torch.float64)
                     if not (ok1 and ok2):
                         ck.finding("batch:affected-by-other-rows:%s" % e["name"], "%s %s" % (e["name"], direction), case)
+    # float32, with one OUTLIER row (identity features / inputs of size 1e6): whatever that row turns into, the other rows are
+    # evaluated as if it were not there.  A reduction over the whole batch (a shared maximum, a shared scale) shows at the float32
+    # precision that models are actually run in, not in float64.
+    for e in catalogue.entries(tier):
+        if not e["kinks"] or e["dom"] != "real":
+            continue
+        t = attempt(catalogue.build, e, seed, torch.float32)
+        if t[0] != "ok":
+            continue
+        t = t[1]
+        x0, ctx = catalogue.sample_inputs(e, 5, seed + 50, torch.float32)
+        for which, direction in [(w_, d_) for w_ in ("all features", "odd features", "even features") for d_ in ("forward", "inverse")]:
+            xo = x0.clone()
+            if which == "all features":
+                xo[2] = xo[2] * 1e6
+            else:
+                xo[2, (1 if which.startswith("odd") else 0)::2] *= 1e6      # e.g. only the identity side of a coupling: the row stays inside the spline's interval
+            if True:
+                fn = t.forward if direction == "forward" else t.inverse
+                ck.case(("c12-outlier", e["name"], which, direction), nontrivial=True)
+                case = {"search": "outlier-row-float32", "entry": e["name"], "outlier": which, "direction": direction, "seed": seed}
+                with torch.no_grad():
+                    full = attempt(fn, xo, ctx)
+                if full[0] != "ok":
+                    continue
+                for i in (0, 1, 3, 4):
+                    with torch.no_grad():
+                        r = attempt(fn, xo[i:i + 1], None if ctx is None else ctx[i:i + 1])
+                    if r[0] != "ok":
+                        continue
+                    ok1, _ = close_enough(r[1][0][0], full[1][0][i], torch.float32)
+                    ok2, _ = close_enough(r[1][1][0], full[1][1][i], torch.float32)
+                    if not (ok1 and ok2):
+                        ck.finding("batch:row-depends-on-other-rows:outlier:%s" % e["name"],
+                                   "%s %s (float32): row %d evaluated alone differs from the same row next to a row of size 1e6 (outputs %.3g, log-abs-det %.3g)"
+                                   % (e["name"], direction, i, float((r[1][0][0] - full[1][0][i]).abs().max()), float((r[1][1][0] - full[1][1][i]).abs().max())), case)
+                        break
     ck.notes.append("row comparisons bit-identical: %d, within a few ulps (BLAS blocking): %d" % (exact, inexact))
     # distributions and flows
     from nflows.distributions import normal, discrete, mixture
